@@ -18,6 +18,11 @@ for c in inp["cases"]:
                 o = cls(**o_["kwargs"])
             elif o_["op"] == "from_dict":
                 o = cls.from_dict({Symbol(k): v for k, v in o_["kwargs"].items()})
+            elif o_["op"] == "from_dict_pair":
+                # a pair of names is not a name of the container: it must be refused like any unknown key
+                dct = {Symbol(k): v for k, v in o_["kwargs"].items()}
+                dct[(Symbol(o_["pair"][0]), Symbol(o_["pair"][1]))] = o_["pair"][2]
+                o = cls.from_dict(dct)
             else:
                 r, cc = o_["shape"]
                 o = cls.from_data(np.arange(r * cc, dtype=float).reshape((r, cc)) + 0.5)
